@@ -491,11 +491,15 @@ macro_rules! holder_impl {
 }
 holder_impl!(Box, Rc, Arc);
 
+/// `Cow<T>` decodes through `T::Owned::decode` but has its own `Decode` impl (no `decode_into`,
+/// `skip` or `encoded_fixed_size` override): on the wire and in its calls on `Input` it behaves
+/// like the 1-tuple `(T,)`, which is how it is described to the model.
 impl<'a, T: Modeled + Clone> Modeled for Cow<'a, T> {
 	fn ty(d: usize) -> String {
-		T::ty(d)
+		format!("tup 1 {}", T::ty(d))
 	}
 	fn val(&self, out: &mut String, c: bool) {
+		out.push_str("L 1 ");
 		(**self).val(out, c)
 	}
 	fn gen(g: &mut G) -> Self {
